@@ -28,7 +28,7 @@ REQUIRED_CLASSES = {"quick": ["offdiag-one-block", "degenerate", "complex", "n-o
 @st.composite
 def strategy_(draw, tier):
     max_modes = 6 if tier == "quick" else 8
-    mdl = draw(gen.model_st(max_modes=max_modes))
+    mdl = draw(gen.any_model_st(max_modes=max_modes, wide=True))
     N = M.n_modes(mdl["sites"])
     pairs = draw(st.lists(st.tuples(st.integers(0, N - 1), st.integers(0, N - 1)), min_size=1, max_size=4, unique=True))
     ns = draw(st.lists(gen.mats_st(), min_size=1, max_size=4, unique=True))
@@ -105,7 +105,7 @@ def execute(case, ctx):
         for q, n in enumerate(ns):
             z = 1j * (2 * n + 1) * math.pi / beta
             g_ref = ref.G(i, j, z)
-            bound = ref.G_drop_bound(i, j, z) + 1e-10 * (1 + abs(g_ref))
+            bound = ref.G_drop_bound(i, j, z) + 1e-10 * (1 + abs(g_ref)) + ref.G_merge_term(i, j, z)
             for src in ("sa", "ct", "gfc"):
                 g = vals[src][q]
                 if not (abs(g - g_ref) <= bound):
